@@ -236,6 +236,8 @@ func buildType(t *tdesc) reflect.Type {
 		return durationType
 	case "any":
 		return anyType
+	case "chan":
+		return reflect.TypeOf(make(chan int))
 	case "slice":
 		return reflect.SliceOf(buildType(t.Elem))
 	case "array":
@@ -441,6 +443,8 @@ func genJSONFor(r *rand.Rand, t *tdesc, sb *strings.Builder, depth int) {
 		sb.WriteString([]string{`"2000-01-01T00:00:00Z"`, `"1999-12-31T23:59:59.5+01:00"`}[r.IntN(2)])
 	case "duration":
 		sb.WriteString([]string{`"1h2m3s"`, `"0s"`, `"-1.5ms"`}[r.IntN(3)])
+	case "chan":
+		sb.WriteString("1")
 	case "raw":
 		sb.Write(genText(r, &genCfg{maxDepth: 2, maxWidth: 2, maxStr: 3, simpleNums: true}))
 	case "any":
